@@ -12,7 +12,7 @@ Open Scope string_scope.
 Ltac2 Set Whnf.is_blocked as old := fun c =>
   Ltac2.Bool.or (old c) (Ltac2.List.exist (Ltac2.Constr.equal c)
     ['@Epoch_get_date; '@Epoch_is_leap; '@Epoch_get_doy; '@Angle_reduce_deg; '@Angle___init__;
-     '@Angle_to_positive; '@Epoch___init__]).
+     '@Angle_to_positive; '@Epoch___init__; '@ifv]).
 Ltac lit_norm := repeat match goal with |- context [Rlit ?m ?e] =>
   let r := eval cbv -[IZR Rdiv Rmult Rinv Rplus Ropp] in (Rlit m e) in change (Rlit m e) with r end.
 
